@@ -11,7 +11,21 @@ ASSUMPTIONS = ["M is taken from the unlimited run of the same query", "lstat val
 
 def mech(tier, seed):
     return [dict(module="TopN", cfg="TopN_q" if tier == "quick" else "TopN_t", workers=8,
-                 actions=["Insert", "Finish"])]
+                 actions=["Insert", "Finish"]),
+            # the streamed early exit inside the walk: LIMIT over every world / readdir order (row-count clause)
+            dict(module="Walker", cfg="Walker_lim", workers=8, actions=[], coverage=False),
+            # the result pipeline: header / separators / footer protocol, row counts per result path, streamed prefix
+            dict(module="Pipeline", cfg="Pipeline_q", workers=4, actions=["Header", "Offer", "Plan", "WriteRow", "Footer"])]
+
+
+def _pipeline_conformance(ctx, tier, seed):
+    from driver import pipeline_conf
+    return pipeline_conf.run(ctx, tier, seed, 'MC_C06', 'MC_C06_q', 400)
+
+
+def conformance(tier, seed):
+    # white-box: the writer / accept events of real runs of these scenarios are replayed through Pipeline.tla
+    return [dict(name="Pipeline", run=_pipeline_conformance)]
 
 
 def generators(tier, seed):
